@@ -39,10 +39,10 @@ func init() {
 		Required:      []string{"regex:matches", "regex:replace", "regex:dynamic-pattern", "regex:invalid-constant-rejected", "cache:seq", "cache:reset-observed", "cache:failed-load-retried", "cache:concurrent", "cache:overlapping-loads", "cache:swapped-global", "cache:observer-samples"},
 		Families: []Family{
 			witnessFamily("C16"),
-			{Name: "regex", N: tierN(150000, 2000000), Run: c16Regex},
-			{Name: "dynpat", N: tierN(20000, 300000), Run: c16DynPattern},
+			{Name: "regex", N: tierN(150000, 6000000), Run: c16Regex},
+			{Name: "dynpat", N: tierN(20000, 800000), Run: c16DynPattern},
 			{Name: "cacheseq", N: func(string) int { return 5 * 4 }, Run: c16CacheSeq},
-			{Name: "cacheconc", N: tierN(2500, 60000), Run: c16CacheConc},
+			{Name: "cacheconc", N: tierN(2500, 150000), Run: c16CacheConc},
 			{Name: "global", N: tierN(300, 5000), Run: c16Global},
 		},
 	})
